@@ -44,6 +44,7 @@ Arguments map_eff : simpl never.
 Arguments map_ev : simpl never.
 Arguments drop_req : simpl never.
 Arguments add_aborted : simpl never.
+Arguments finish_task : simpl never.
 
 (* the part of a command record that no runtime step may change *)
 Definition meta (c : cmdst) := (c_names c, c_epoch c).
@@ -175,6 +176,14 @@ Section Frame.
   Proof. apply R_drop. Qed.
   Lemma R_drop_cmd fuel cid H : R H (drop_cmd fuel cid H).
   Proof. apply R_drop. Qed.
+  Lemma R_finish_task cid s t H : R H (finish_task cid s t H).
+  Proof.
+    unfold finish_task. cbv zeta.
+    eapply R_trans; [|apply R_kill_flag]. eapply R_trans; [|apply R_drop_fs].
+    match goal with |- R _ (fold_left ?g ?l ?H1) => eapply R_trans; [|apply (R_fold g)] end.
+    - apply (R_trans _ (ucmd cid (slab_remove s) H)); [apply R_ucmd; solve_good | apply R_utf].
+    - intros wk Hh. apply R_wake.
+  Qed.
 
   (* solve R H (op1 (op2 ... H)) for explicit compositions of primitives *)
   Ltac prim :=
@@ -306,17 +315,7 @@ Section Frame.
       apply IHr in E2. apply IHd in E.
       eapply R_trans; [|exact E].
       eapply R_trans; [|]. { eapply R_trans; [|exact E2]. rsolve. }
-      destruct st; try apply R_refl.
-      * destruct (slab_get s (gcmd cid H2)) as [t|]; [|apply R_refl].
-        eapply R_trans; [|apply R_kill_flag]. eapply R_trans; [|apply R_drop_fs].
-        match goal with |- R _ (fold_left ?g ?l ?H1) => eapply R_trans; [|apply (R_fold g)] end.
-        -- rsolve.
-        -- intros wk Hh. apply R_wake.
-      * destruct (slab_get s (gcmd cid H2)) as [t|]; [|apply R_refl].
-        eapply R_trans; [|apply R_kill_flag]. eapply R_trans; [|apply R_drop_fs].
-        match goal with |- R _ (fold_left ?g ?l ?H1) => eapply R_trans; [|apply (R_fold g)] end.
-        -- rsolve.
-        -- intros wk Hh. apply R_wake.
+      destruct st; try apply R_refl; (destruct (slab_get s (gcmd cid H2)) as [t|]; [apply R_finish_task | apply R_refl]).
     - (* run_task *)
       intros cid s H r H' E. cbn [step_funs rrun_task] in E. unfold run_task_body in E.
       destruct (slab_get s (gcmd cid H)) as [t|]; [|inversion E; subst; apply R_note].
